@@ -540,14 +540,50 @@ func (k *Kernel) addProposedHeader(ctx context.Context, s *kState, ph tmconsensu
 		commitProofs := ph.Header.PrevCommitProof.Proofs
 		mergedAny := false
 		for blockHash, laterSigs := range commitProofs {
-			target := backfillVRV.PrecommitProofs[blockHash]
-			if target == nil {
-				panic("TODO: backfill unknown block precommit")
-			}
-
 			laterSparseCommit := gcrypto.SparseSignatureProof{
 				PubKeyHash: ph.Header.PrevCommitProof.PubKeyHash,
 				Signatures: laterSigs,
+			}
+
+			target := backfillVRV.PrecommitProofs[blockHash]
+			if target == nil {
+				// The proposer saw precommits for a target we have no precommits for
+				// (commonly a nil precommit that never reached us).
+				// Start from an empty proof for that target,
+				// and only keep it if any of the offered signatures verify.
+				signContent, err := tmconsensus.PrecommitSignBytes(
+					tmconsensus.VoteTarget{
+						Height: backfillVRV.Height, Round: backfillVRV.Round,
+						BlockHash: blockHash,
+					},
+					k.sigScheme,
+				)
+				if err != nil {
+					glog.HRE(k.log, ph.Header.Height, ph.Round, err).Warn(
+						"Failed to build precommit sign bytes for backfilled commit info",
+					)
+					continue
+				}
+				target, err = k.cmspScheme.New(
+					signContent,
+					backfillVRV.ValidatorSet.PubKeys,
+					string(backfillVRV.ValidatorSet.PubKeyHash),
+				)
+				if err != nil {
+					glog.HRE(k.log, ph.Header.Height, ph.Round, err).Warn(
+						"Failed to build empty precommit proof for backfilled commit info",
+					)
+					continue
+				}
+				if !target.MergeSparse(laterSparseCommit).IncreasedSignatures {
+					continue
+				}
+				if backfillVRV.PrecommitProofs == nil {
+					backfillVRV.PrecommitProofs = make(map[string]gcrypto.CommonMessageSignatureProof)
+				}
+				backfillVRV.PrecommitProofs[blockHash] = target
+				mergedAny = true
+				continue
 			}
 
 			mergeRes := target.MergeSparse(laterSparseCommit)
